@@ -709,3 +709,107 @@ Proof.
     + rewrite map_length, En. cbn. lia.
     + rewrite map_length. lia.
 Qed.
+
+(* ------------------------------------------------------------------ *)
+(* optimize_greedy                                                      *)
+Definition GInv (st : gstate) : Prop :=
+  Good (gs_c st) /\
+  (forall i, In i (keys (gs_c st)) -> nget i (gs_sizes st) <> None) /\
+  (forall cnt g, In (cnt, g) (gs_cands st) -> g_i g <> g_j g).
+
+Lemma g_push_good sco i j st : GInv st -> In i (keys (gs_c st)) -> In j (keys (gs_c st)) -> i <> j ->
+  GInv (g_push sco i j st) /\ gs_c (g_push sco i j st) = gs_c st.
+Proof.
+  intros (G & HS & HC) Hi Hj Hij. unfold g_push.
+  destruct (nget i (cp_nodes (gs_c st))) as [il|] eqn:Gi; [|exfalso; now apply nget_none in Gi].
+  destruct (nget j (cp_nodes (gs_c st))) as [jl|] eqn:Gj; [|exfalso; now apply nget_none in Gj].
+  destruct (nget i (gs_sizes st)) as [si|] eqn:Si; [|exfalso; now apply (HS i)].
+  destruct (nget j (gs_sizes st)) as [sj|] eqn:Sj; [|exfalso; now apply (HS j)].
+  split; [|reflexivity]. split; [exact G|]. split; [exact HS|]. cbn [gs_cands].
+  intros cnt g Hin. apply in_app_or in Hin as [Hin|[Heq|[]]]; [eapply HC; eassumption|].
+  injection Heq as _ <-. exact Hij.
+Qed.
+
+Lemma g_push_fold_good {X} sco (f : X -> nat * nat) : forall l st, GInv st ->
+  (forall x, In x l -> In (fst (f x)) (keys (gs_c st)) /\ In (snd (f x)) (keys (gs_c st)) /\ fst (f x) <> snd (f x)) ->
+  GInv (fold_left (fun s x => g_push sco (fst (f x)) (snd (f x)) s) l st) /\
+  gs_c (fold_left (fun s x => g_push sco (fst (f x)) (snd (f x)) s) l st) = gs_c st.
+Proof.
+  induction l as [|x l IH]; intros st I H; cbn [fold_left]; [split; [assumption|reflexivity]|].
+  destruct (H x (or_introl eq_refl)) as (H1 & H2 & H3).
+  destruct (g_push_good sco _ _ st I H1 H2 H3) as (I1 & Ec).
+  destruct (IH _ I1) as (I2 & Ec2); [intros y Hy; rewrite Ec; apply H; now right|].
+  split; [exact I2|congruence].
+Qed.
+
+Lemma ndel_incl {V} i : forall (d : list (nat * V)) p, In p (ndel i d) -> In p d.
+Proof.
+  induction d as [|[a v] d IH]; intros p H; [destruct H|]. cbn [ndel] in H.
+  destruct (Nat.eqb a i); [now right|]. destruct H as [H|H]; [now left|right; auto].
+Qed.
+
+Lemma neighbors_spec c k l : EW c -> In l (neighbors c k) -> In l (keys c) /\ l <> k.
+Proof.
+  intros W H. unfold neighbors in H. destruct (nget k (cp_nodes c)) as [lg|]; [|destruct H].
+  apply in_flat_map in H as ([ix cnt] & _ & H). cbn [fst] in H.
+  destruct (nget ix (cp_edges c)) as [ns|] eqn:Gx; [|destruct H].
+  apply filter_In in H as [H Hne]. apply negb_true_iff, Nat.eqb_neq in Hne.
+  split; [eapply edge_member_present; eassumption|assumption].
+Qed.
+
+Lemma greedy_loop_good sco : forall fuel st, GInv st -> Good (gs_c (greedy_loop sco fuel st)).
+Proof.
+  induction fuel as [|f IH]; intros st I; cbn [greedy_loop]; [apply I|].
+  destruct (gs_queue st) as [|x0 rest]; [apply I|].
+  destruct (nget (snd (heap_min x0 rest)) (gs_cands st)) as [g|] eqn:Gc; [|apply I].
+  destruct I as (G & HS & HC).
+  assert (Hg : g_i g <> g_j g) by (eapply HC; eapply nget_in_pair; exact Gc).
+  assert (HC1 : forall cnt g0, In (cnt, g0) (ndel (snd (heap_min x0 rest)) (gs_cands st)) -> g_i g0 <> g_j g0).
+  { intros cnt g0 Hin. eapply HC. eapply ndel_incl; exact Hin. }
+  destruct (nget (g_i g) (cp_nodes (gs_c st))) as [li|] eqn:Gi;
+    [destruct (nget (g_j g) (cp_nodes (gs_c st))) as [lj|] eqn:Gj|].
+  - assert (Hi : In (g_i g) (keys (gs_c st))) by (eapply nget_in; exact Gi).
+    assert (Hj : In (g_j g) (keys (gs_c st))) by (eapply nget_in; exact Gj).
+    destruct (contract_nodes_good (g_i g) (g_j g) (Some (g_klegs g)) (gs_c st) G Hi Hj Hg) as (G1 & Hk & Hs1 & Hr & _).
+    destruct (contract_nodes (g_i g) (g_j g) (Some (g_klegs g)) (gs_c st)) as [c' k] eqn:E.
+    cbn [fst snd] in G1, Hk, Hs1, Hr. subst k.
+    set (st1 := mkGS c' (gs_sizes st ++ [(cp_ssa (gs_c st), g_ksize g)])
+                     (heap_remove (heap_min x0 rest) (x0 :: rest)) (ndel (snd (heap_min x0 rest)) (gs_cands st)) (gs_cnt st)).
+    assert (I1 : GInv st1).
+    { split; [exact G1|]. split; [|exact HC1]. cbn [gs_c gs_sizes st1]. intros i Hin. rewrite Hk in Hin. rewrite nget_app.
+      apply in_app_or in Hin as [Hin|[<-|[]]].
+      - apply remove_all_in in Hin as [Hin _]. specialize (HS i Hin). destruct (nget i (gs_sizes st)); [discriminate|congruence].
+      - destruct (nget (cp_ssa (gs_c st)) (gs_sizes st)); [discriminate|]. cbn. now rewrite Nat.eqb_refl. }
+    destruct (g_push_fold_good sco (fun l => (cp_ssa (gs_c st), l)) (neighbors c' (cp_ssa (gs_c st))) st1 I1) as (I2 & _).
+    + intros l Hl. cbn [fst snd gs_c st1]. destruct (neighbors_spec c' _ l (proj1 (proj2 (proj2 G1))) Hl) as [H1 H2].
+      split; [rewrite Hk; apply in_or_app; right; now left|]. split; [assumption|congruence].
+    + apply IH. exact I2.
+  - apply IH. split; [exact G|]. split; [exact HS|exact HC1].
+  - apply IH. split; [exact G|]. split; [exact HS|exact HC1].
+Qed.
+
+Lemma combinations2_spec : forall l x y, In (x, y) (combinations2 l) -> In x l /\ In y l /\ (NoDup l -> x <> y).
+Proof.
+  induction l as [|a l IH]; intros x y H; [destruct H|]. cbn [combinations2] in H.
+  apply in_app_or in H as [H|H].
+  - apply in_map_iff in H as (b & Heq & Hb). injection Heq as <- <-.
+    split; [now left|]. split; [now right|]. intros ND. inversion ND; subst. intros ->. contradiction.
+  - destruct (IH x y H) as (H1 & H2 & H3). split; [now right|]. split; [now right|].
+    intros ND. inversion ND; subst. auto.
+Qed.
+
+Lemma cp_greedy_sc_good sco c : Good c -> Good (cp_greedy_sc sco c).
+Proof.
+  intros G. unfold cp_greedy_sc.
+  set (st0 := mkGS c (map (fun il => (fst il, compute_size c (snd il))) (cp_nodes c)) [] [] 0).
+  assert (I0 : GInv st0).
+  { split; [exact G|]. split; [|intros cnt g []]. cbn [gs_c gs_sizes st0]. intros i Hi.
+    apply nget_some_in_iff. rewrite map_map. cbn [fst]. exact Hi. }
+  destruct (g_push_fold_good sco (fun p => p) (flat_map (fun e => combinations2 (snd e)) (cp_edges c)) st0 I0) as (I1 & _).
+  - intros [x y] Hin. cbn [fst snd gs_c st0]. apply in_flat_map in Hin as ([ix ns] & He & Hp). cbn [snd] in Hp.
+    destruct (combinations2_spec ns x y Hp) as (H1 & H2 & H3).
+    destruct G as (_ & _ & W & _). assert (Gx : nget ix (cp_edges c) = Some ns) by (apply in_nget; [apply W|assumption]).
+    split; [eapply edge_member_present; eassumption|]. split; [eapply edge_member_present; eassumption|].
+    apply H3. destruct W as [_ HE]. now destruct (HE ix ns Gx).
+  - apply greedy_loop_good. exact I1.
+Qed.
